@@ -22,6 +22,8 @@ import Mdsort.Spec.Time
 import Mdsort.Proofs.FlagsTime
 import Mdsort.Spec.Dest
 import Mdsort.Model.Dest
+import Mdsort.Model.L0.Mime
+import Mdsort.Model.L0.Util
 
 /-!
 Line-protocol driver: one request per line `<side> <op> <hexarg>*`, one response
@@ -514,9 +516,97 @@ def handleMsg (side op : String) (args : List Bytes) : Option String :=
   | "M", "lex", as => some (handleLex as)
   | _, _, _ => none
 
+/-! ### L0 (index-level) ops: `l0 <fn> <hex>*` answers `OK <what the M op prints>` or `FAULT <fault>` -/
+
+def l0Bytes (b : L0.Buf) (i : Nat) : L0.M Bytes := L0.readCStr b i []
+
+/-- The table of `message_parse_headers` at index level as a list-level message (for `dumpTable`). -/
+def l0Msg (b : L0.Buf) (hs : Array L0.Hdr0) (body : Nat) : L0.M Model.Msg := do
+  let hdrs ← hs.toList.mapM fun h => do
+    let k ← l0Bytes b h.key
+    let v ← l0Bytes b h.val
+    pure ({ id := h.id, key := k, val := v } : Model.Hdr)
+  let bd ← l0Bytes b body
+  pure { headers := hdrs, body := bd }
+
+def l0Att (a : L0.Att) : L0.M Model.Msg := l0Msg a.buf a.headers a.body
+
+def l0Parse (m : Bytes) : L0.M L0.Att := do
+  let (b, hs, body) ← L0.messageParseHeaders (L0.Buf.ofBytes m)
+  pure { buf := b, headers := hs, body := body, path := [] }
+
+def handleL0 (fn : String) (args : List Bytes) : L0.M String :=
+  match fn, args with
+  | "b64raw", [s] => do
+    match ← L0.base64Decode (L0.Buf.ofBytes s) 0 with
+    | none => pure "NONE"
+    | some (d, n) => pure ("OK " ++ toHex (d.slice 0 n))
+  | "b64", [s] => do
+    match ← L0.base64Decode (L0.Buf.ofBytes s) 0 with
+    | none => pure "NONE"
+    | some (d, _) => pure ("OK " ++ toHex (← l0Bytes d 0))
+  | "b64n", [s, n] => do
+    match ← L0.b64pton (L0.Buf.ofBytes s) 0 (L0.Buf.malloc n.length) n.length with
+    | none => pure "NONE"
+    | some (k, t) => pure ("OK " ++ toHex (t.slice 0 k))
+  | "qp", [s] => do pure (toHex (cstr (← L0.quotedPrintableDecode (L0.Buf.ofBytes s) 0)))
+  | "qph", [s] => do
+    let b := L0.Buf.ofBytes s
+    pure (toHex (← L0.qpLoop true b 0 (← L0.strlen b 0) 0 []))
+  | "r2047raw", [s] => do pure (toHex (← L0.rfc2047Decode (L0.Buf.ofBytes s) 0))
+  | "r2047", [s] => do pure (toHex (cstr (← L0.rfc2047Decode (L0.Buf.ofBytes s) 0)))
+  | "unfold", [v] => do pure (toHex (← l0Bytes (← L0.unfoldHeader (L0.Buf.ofBytes v) 0) 0))
+  | "hparse", [m] => do pure (dumpTable (← l0Att (← l0Parse m)))
+  | "hget", [name, m] => do
+    match ← L0.getHeader (← l0Parse m) name with
+    | none => pure "NONE"
+    | some ds => pure (dumpValues (some (← ds.mapM fun d => l0Bytes d 0)))
+  | "nparts", [m] => do
+    match ← L0.getAttachments (← l0Parse m) with
+    | none => pure "NONE"
+    | some ps => pure (s!"P{ps.size}" ++ String.join ((← ps.toList.mapM l0Att).map fun p => " " ++ dumpTable p))
+  | "pslice", [path, siz, beg, e] => do
+    match ← L0.pathslice (L0.Buf.ofBytes path) (L0.Buf.malloc (asNat siz)) (asNat siz) (asInt beg) (asInt e) with
+    | none => pure "NONE"
+    | some d => pure ("OK " ++ toHex (← l0Bytes d 0))
+  | "isbackref", [s] => do
+    match ← L0.isBackref (L0.Buf.ofBytes s) 0 with
+    | .inl (n, mi, si) => pure s!"BR {n} {mi} {si}"
+    | .inr false => pure "NO"
+    | .inr true => pure "INVALID"
+  | "ismacro", [s] => do
+    match ← L0.isMacro (L0.Buf.ofBytes s) 0 with
+    | .inl (n, name) => pure s!"MACRO {n} {toHex (← l0Bytes name 0)}"
+    | .inr false => pure "NO"
+    | .inr true => pure "INVALID"
+  | _, _ => pure "BADOP"
+
+def l0Answer (fn : String) (args : List Bytes) : String :=
+  match handleL0 fn args with
+  | .ok "BADOP" => "BADOP"
+  | .ok s => "OK " ++ s
+  | .error (.oob i) => s!"FAULT oob {i}"
+  | .error .uaf => "FAULT uaf"
+  | .error .nullDeref => "FAULT null"
+
 def handle (side op : String) (args : List String) : String :=
   match side, op, args.mapM fromHex with
   | _, _, none => "BADHEX"
+  | "l0", fn, some as => l0Answer fn as
+  | "M", "isbackref", some [s] =>
+    match Model.isBackref s with
+    | .inl (n, br) => s!"BR {n} {br.mi} {br.si}"
+    | .inr false => "NO"
+    | .inr true => "INVALID"
+  | "M", "ismacro", some [s] =>
+    match Model.isMacro s with
+    | .inl (n, name) => s!"MACRO {n} {toHex name}"
+    | .inr false => "NO"
+    | .inr true => "INVALID"
+  | "M", "nparts", some [m] =>
+    match Model.getAttachments (Model.parseMessage m) with
+    | none => "NONE"
+    | some ps => s!"P{ps.length}" ++ String.join (ps.map fun p => " " ++ dumpTable p)
   | "M", "b64", some [s] => optHex (Model.base64Decode s)
   | "S", "b64", some [s] => optHex ((Spec.b64 s).map cstr)
   | "M", "b64raw", some [s] => optHex (Model.base64DecodeRaw s)
